@@ -33,8 +33,8 @@ def replay(arg):
 
     consts, frs, table, rendering, nscenes = arg
     cfg = consts["cfg"]
-    ego = pipeline._egos()[1] if rendering == "map" else None
-    mgr = pipeline.manager_for(cfg, "map" if rendering == "map" else "base_link")
+    ego = pipeline._egos()[1] if rendering.startswith("map") else None
+    mgr = pipeline.manager_for(cfg, "map" if rendering.startswith("map") else "base_link")
     ds = consts["dataset"]
     mism = []
     rep = {"calls": [[r["i"], r["ev"], r["cv"]] for r in frs], "world": consts["name"], "rendering": rendering, "scenes": nscenes, "spec_table": {k: table[k] for k in table if k not in ("errs", "conf")}}
@@ -43,7 +43,10 @@ def replay(arg):
             frame = {"ests": consts["ests"][rec["ev"] - 1], "gts": ds[rec["i"] - 1], "crit": consts["crits"][rec["cv"] - 1], "pf": consts["pf"]}
             crit, pfc = pipeline.frame_configs(mgr, frame)
             ests, gts = pipeline.render_objects(frame, rendering, ego)
-            fgt = frame_gt(gts, time=1000 * (k + 1), name=str(k), ego=ego)
+            if rendering == "map:looked-up":    # ground truth by an interpolating lookup on loaded frames (the ego drives through `ego`)
+                fgt = pipeline.looked_up_gt(gts, ego, 1000 * (k + 1), name=str(k))
+            else:
+                fgt = frame_gt(gts, time=1000 * (k + 1), name=str(k), ego=ego)
             mgr.add_frame_result(1000 * (k + 1), fgt, ests, crit, pfc)
         frame_results = list(mgr.frame_results)
         an = PerceptionAnalyzer3D(mgr.evaluator_config)
@@ -409,6 +412,28 @@ def replay_area(arg):
                 mism.append(("area-selection", "extract_area_results keeps estimates %s / ground truths %s, specification %s" % (kept_e, kept_g, want_ids), rep))
             if (len(mgr.frame_results[0].object_results), len(mgr.frame_results[0].frame_ground_truth.objects)) != before:
                 mism.append(("area-selection-modified-input", "extract_area_results changed the frame results it was given", rep))
+            # the same points relative to a moving ego, objects stored in map coordinates: a drive of three frames, extracted in one call
+            border = any(q[0] in (-3 * a, -a, a, 3 * a) or q[1] in (-3 * b, -b, b, 3 * b) for q in pts)
+            if not border:
+                tmp = tempfile.mkdtemp(prefix="verif_area_")
+                try:
+                    ecm = PerceptionEvaluationConfig([], "map", tmp, d)
+                    mgm = PerceptionEvaluationManager(ecm)
+                finally:
+                    shutil.rmtree(tmp, ignore_errors=True)
+                critm = CriticalObjectFilterConfig(ecm, ["car"], max_x_position_list=[100.0], max_y_position_list=[100.0])
+                egos = [EgoPose(70.0, -20.0, 0.0, 2.2), EgoPose(76.0, -11.0, 0.0, -0.9), EgoPose(-15.0, 40.0, 0.0, 0.4)]
+                for j, e_ in enumerate(egos):
+                    Em = [obj3d((q[0], q[1], 0.0), label="car", score=0.9 - 0.01 * i, vid=i + 1, uuid="e%d" % i, frame="map", ego=e_) for i, q in enumerate(pts)]
+                    Gm = [obj3d((q[0], q[1], 0.0), label="car", vid=i + 1, uuid="g%d" % i, frame="map", ego=e_) for i, q in enumerate(pts)]
+                    mgm.add_frame_result(1000 + j, frame_gt(Gm, ego=e_, time=1000 + j), Em, critm, PerceptionPassFailConfig(ecm, ["car"], [1.0]))
+                outm = extract_area_results(mgm.frame_results, [k - 1 for k in sel], ur, bl)
+                for j, fr_ in enumerate(outm):
+                    ke = sorted(vid(r.estimated_object) for r in fr_.object_results)
+                    kg = sorted(vid(g) for g in fr_.frame_ground_truth.objects)
+                    if ke != want_ids or kg != want_ids:
+                        mism.append(("area-selection-map-frame", "frame %d of a drive stored in map coordinates: extract_area_results keeps estimates %s / ground truths %s, "
+                                     "specification (and the same scene in base_link) %s" % (j, ke, kg, want_ids), rep))
     except Exception as ex:
         mism.append(("raised", "area replay raised %r" % (ex,), rep))
     return 1, mism
@@ -465,6 +490,8 @@ def run(ctx: Ctx):
                 jobs.append((consts_py, frs, table, "map", 1))
             if k % 5 == 0:
                 jobs.append((consts_py, frs, table, "base_link", 2))
+            if k % 4 == 1:
+                jobs.append((consts_py, frs, table, "map:looked-up", 1))
         outs = pmap(replay, jobs, procs=16)
         for job, (n, mism) in zip(jobs, outs):
             ctx.traces += n
